@@ -9,7 +9,8 @@ For every site where a mutable bookkeeping object sits behind `state_dict()` / `
 
 a random history of next / reset() / state_dict() / reset(dict the user holds) / deepcopy-of-a-held-dict is run on the
 REAL object.  After every operation the harness observes object identities (`is`) and canonical contents and
-  1. infers the site's policy (copyOut: is the returned sub-object the live one?  copyIn: is the live object the loaded
+  1. maps every live update to the model's `rebind` (the field points to another object afterwards) or `step` (same
+     object, other content) and infers the site's policy (copyOut: is the returned sub-object the live one?  copyIn: is the live object the loaded
      one?  inPlace: did the content of the live object change while its identity stayed?) — a harmless rewrite that moves a
      site to another SAFE policy is therefore not an alarm;
   2. runs the Lean model with that policy on the same history and compares, step by step, the live content, which held
@@ -163,7 +164,7 @@ def _run_real(case, s) -> Dict[str, Any]:
                 outcomes.append("stop")
             after = field(node)
             if after is not before:
-                mops.append({"op": "step", "v": code(after)})
+                mops.append({"op": "rebind", "v": code(after)})
                 pol["inPlace"].append(False)
             elif code(after) != before_c:
                 mops.append({"op": "step", "v": code(after)})
@@ -172,7 +173,7 @@ def _run_real(case, s) -> Dict[str, Any]:
             sd = node.state_dict()
             after = field(node)
             if after is not before:     # lazily materialised bookkeeping (Unbatcher): a rebinding update, then the get
-                mops.append({"op": "step", "v": code(after)})
+                mops.append({"op": "rebind", "v": code(after)})
                 pol["inPlace"].append(False)
             elif code(after) != before_c:
                 mops.append({"op": "step", "v": code(after)})
